@@ -92,7 +92,7 @@ def acyclicSpec (n : Nat) (g : Graph) : Bool :=
 /-! ### clauses and the per-observation checks -/
 
 inductive Clause
-  | reachState | reachCheckExec | reachNotification | liveSet | cycleRejected
+  | reachState | reachCheckExec | reachNotification | liveSet | cycleRejected | refusedUnchanged
   deriving Repr, DecidableEq
 
 def Clause.name : Clause → String
@@ -101,6 +101,7 @@ def Clause.name : Clause → String
   | .reachNotification => "reachable_iff_notification"
   | .liveSet => "graph_equals_live_set"
   | .cycleRejected => "cycle_is_rejected"
+  | .refusedUnchanged => "refused_addition_leaves_graph_unchanged"
 
 def Clause.ofAspect : Aspect → Clause
   | .state => .reachState | .checkExec => .reachCheckExec | .notification => .reachNotification
@@ -120,5 +121,16 @@ def specQuery (n : Nat) (g : Graph) (obs : Aspect → Nat → Bool) (ndeps : Nat
     model/implementation diff (`cycle_check_complete`), not here. -/
 def specLoad (n : Nat) (g : Graph) (accepted : Bool) : Option Clause :=
   if accepted && !acyclicSpec n g then some .cycleRejected else none
+
+/-- One runtime addition (`ConfigObjectUtility::CreateObject`): `g` = the live graph before, `ndeps v` =
+    `GetDependencies().size()` of checkable `v` afterwards.  An addition that closes a cycle must be
+    refused; a refused addition leaves the graph as it was; an accepted one adds exactly the batch. -/
+def specRuntimeAdd (n : Nat) (g : Graph) (new : List Dep) (accepted : Bool) (ndeps : Nat → Nat) : Option Clause :=
+  let gAll : Graph := { g with deps := g.deps ++ new }
+  let cnt := fun (h : Graph) (v : Nat) => (h.deps.filter (fun d => d.child == v)).length
+  if accepted && !acyclicSpec n gAll then some .cycleRejected
+  else if !accepted && !(List.range n).all (fun v => ndeps v == cnt g v) then some .refusedUnchanged
+  else if accepted && !(List.range n).all (fun v => ndeps v == cnt gAll v) then some .liveSet
+  else none
 
 end Icinga.C07
